@@ -1305,6 +1305,7 @@ func verifyBlindedMessages(proofs cashu.Proofs, blindedMessages cashu.BlindedMes
 	}
 
 	// Check that the conditions across all proofs are the same
+	firstSecret := secret
 	for _, proof := range proofs {
 		secret, err := nut10.DeserializeSecret(proof.Secret)
 		if err != nil {
@@ -1313,6 +1314,13 @@ func verifyBlindedMessages(proofs cashu.Proofs, blindedMessages cashu.BlindedMes
 		// all flags need to be SIG_ALL
 		if !nut11.IsSigAll(secret) {
 			return nut11.AllSigAllFlagsErr
+		}
+
+		// kind of condition (and the hash of a HTLC) must be the same across all proofs.
+		// The outputs are checked against the condition of the first proof only
+		if secret.Kind != firstSecret.Kind ||
+			(secret.Kind == nut10.HTLC && secret.Data.Data != firstSecret.Data.Data) {
+			return nut11.SigAllKindMustBeEqualErr
 		}
 
 		currentSignaturesRequired := 1
